@@ -596,6 +596,7 @@ def install_data(e):
         if "auto_close" in c.ghost:
             c.ghost["auto_close"] = SV("int", z(c.ghost["auto_close"]) + 1)
     e.after_call[("WebSocket.recv_data_frame", "send_close")] = after_send_close
+    e.before_call[("WebSocket.recv_data_frame", "send_close")] = lambda c, fr, args: c.ghost.__setitem__("$dr_close", c.ghost["draws"])
 
     def rdf_case(fire):
         def case(c):
@@ -638,7 +639,16 @@ def install_data(e):
         conn0 = z(old.getf(ws, "connected"), "bool")
         ac0, ac1 = z(old.ghost["auto_close"]), z(c.ghost["auto_close"])
         isdata = z3.Or(d.opcode == 0, d.opcode == 1, d.opcode == 2)
-        close_reply = spec.rfc_encode(1, 0, 0, 0, 8, 1, spec.keyfn(z(c.ghost["draws"]) - 1), spec.be_bytes(z3.IntVal(1000), 2))
+        # the reply to the server's close frame: one close frame (1000) under the key drawn for it.  It is best effort - when the
+        # transport refuses it (the peer is gone already) what reached the wire is a prefix of that frame and the close frame is
+        # still returned: a failing reply never hides the frame by which the server ended the connection (C14, C15)
+        kd = z(c.ghost["$dr_close"]) if (c.mode == "prove" and "$dr_close" in c.ghost) else \
+            (z(c.ghost["draws"]) - 1 if c.mode == "prove" else smt.fresh(smt.Int, "close_key_draw"))
+        close_reply = spec.rfc_encode(1, 0, 0, 0, 8, 1, spec.keyfn(kd), spec.be_bytes(z3.IntVal(1000), 2))
+        base_w = cat(z(old.ghost["wire"]), z(c.ghost["pong_acc"]))
+        nrep = slen(z(c.ghost["wire"])) - slen(base_w)
+        reply_written = z3.And(nrep >= 0, nrep <= slen(close_reply), c.eq(z(c.ghost["wire"]), cat(base_w, slc(close_reply, 0, nrep))),
+                               kd >= dr0 + npi)
         common = z3.And(FB(c, fb), CF(c, cf), fop == d.opcode, ffin == d.fin,
                         spec.rfc_ok(d.fin, d.rsv1, d.rsv2, d.rsv3, d.opcode, d.payload, skip, "not_must_reject"))
         if fire is True:
@@ -652,8 +662,8 @@ def install_data(e):
             z3.Implies(isdata, z3.And(data_case, wire_is(c, old))),
             # a close frame is answered once: only while the connection is still marked connected (no close sent yet)
             z3.Implies(z3.And(d.opcode == 8, conn0),
-                       z3.And(ctl_case, wire_is(c, old, close_reply), z(c.ghost["draws"]) >= dr0 + npi + 1,
-                              z3.Not(z(c.getf(ws, "connected"), "bool")), ac1 == ac0 + 1)),
+                       z3.And(ctl_case, reply_written, z3.Implies(nrep == slen(close_reply), z(c.ghost["draws"]) >= dr0 + npi + 1),
+                              z3.Not(z(c.getf(ws, "connected"), "bool")), ac1 == ac0 + z3.If(nrep == slen(close_reply), 1, 0))),
             z3.Implies(z3.And(d.opcode == 8, z3.Not(conn0)),
                        z3.And(ctl_case, wire_is(c, old),
                               z3.Not(z(c.getf(ws, "connected"), "bool")), ac1 == ac0)),
@@ -700,7 +710,9 @@ def install_data(e):
                        z3.And(same_handle(c.getf(ws, "sock"), old.getf(ws, "sock")), z(c.ghost["closed_handles"]) == z(old.ghost["closed_handles"])))
         else:
             tr = z3.And(same_handle(c.getf(ws, "sock"), old.getf(ws, "sock")), z(c.ghost["closed_handles"]) == z(old.ghost["closed_handles"]))
-        return z3.And(FB(c, fb), CF(c, cf), WSI(c, ws), z(c.ghost["auto_close"]) <= z(old.ghost["auto_close"]) + 1, tr)
+        # no transport failure comes out of a call that consumed a close frame: the frame is delivered whatever happens to the reply
+        not_after_close = z3.Not(z3.And(z(c.ghost["lastf"]) != z(old.ghost["lastf"]), last(c).opcode == 8))
+        return z3.And(FB(c, fb), CF(c, cf), WSI(c, ws), z(c.ghost["auto_close"]) <= z(old.ghost["auto_close"]) + 1, tr, not_after_close)
 
     def rdf_inv(c, fr, entry):
         ws = fr.locals["self"]
@@ -708,7 +720,9 @@ def install_data(e):
         return z3.And(FB(c, fb), CF(c, cf), wire_is(c, entry), WSI(c, ws),
                       z(c.ghost["auto_close"]) == z(entry.ghost["auto_close"]), tr_same(c, entry, ws),
                       z(c.getf(ws, "connected"), "bool") == z(entry.getf(ws, "connected"), "bool"),
-                      z(c.ghost["draws"]) >= z(entry.ghost["draws"]) + z(c.ghost["npings"], "int"), z(c.ghost["npings"], "int") >= 0)
+                      z(c.ghost["draws"]) >= z(entry.ghost["draws"]) + z(c.ghost["npings"], "int"), z(c.ghost["npings"], "int") >= 0,
+                      # a close frame ends the call: whatever was consumed so far in this call was not one
+                      z3.Or(z(c.ghost["lastf"]) == z(entry.ghost["lastf"]), last(c).opcode != 8))
 
     GH = ["rpos", "rx_calls", "fstart", "lastf", "wire", "tx_calls", "draws", "m_open", "m_op", "m_data", "pong_acc", "npings", "auto_close",
           "last_seq_ok", "seqf"]
